@@ -197,7 +197,7 @@ def sched_parts(pid: str, tier: str):
         parts.append(Part("concurrent-awaits-2", P(run_threads, TCfg(mode="awaits", threads=2)), {"awaits": 2, "N": 3, "shapes": 3, "nodes": "async-thread (one optionally thread)", "max_concurrency": "1..3",
                           "choices": "which suspended coroutine resumes, which futures finish", "setup": "optional setup node, optionally set up before"}, 900, 8, ["w_interleaved"], SCHED_FUNCS))
         if not q:
-            parts.append(Part("concurrent-awaits-3", P(run_threads, TCfg(mode="awaits", threads=3)), {"awaits": 3, "N": 3}, 2400, 9, ["w_interleaved"], SCHED_FUNCS))
+            parts.append(Part("concurrent-awaits-3", P(run_threads, TCfg(mode="awaits", threads=3)), {"awaits": 3, "N": 3}, 3600, 9, ["w_interleaved"], SCHED_FUNCS))
     if pid in ("C04", "C05", "C06", "C08"):
         # what the scheduler reads (max_concurrency, is_sequential, priorities) arrives identically through all three loaders
         from harness.graph import LCfg, run_config_loaders
@@ -327,8 +327,8 @@ def dataflow_parts(pid: str, tier: str):
         parts.append(Part("schedule-independence-N3", P(run_sched, Cfg(N=3, resources="tma", max_async=1 if q else 99, activation=True, kwargs=True, routes="d" if q else "dc", sym_prio=not q, monitors=("C01",))),
                           {"N": 3, "what": "returned tuple equals the plain evaluation on every schedule / configuration"}, 900, 7, ["w_returned", "w_parallel"], SCHED_FUNCS))
         if not q:
-            mk("programs-3stmts", DCfg(stmts=("s", "s", "s"), focus="C01", budget=3, flavours="sa", config=True), ["w_call", "w_op", "w_sub"], 1800)
-            mk("programs-2stmts-b4", DCfg(focus="C01", budget=4, flavours="s"), ["w_call", "w_op", "w_sub"], 1800)
+            mk("programs-3stmts", DCfg(stmts=("s", "s", "s"), focus="C01", budget=3, flavours="sa", config=True), ["w_call", "w_op", "w_sub"], 3600)
+            mk("programs-2stmts-b4", DCfg(focus="C01", budget=4, flavours="s"), ["w_call", "w_op", "w_sub"], 3600)
     elif pid == "C10":
         mk("flag-forms", DCfg(focus="C10", budget=3), ["w_flag", "w_flag_indexed", "w_flag_on_nested", "w_deactivated"])
         from harness.compose import CCfg, run_compose
@@ -399,8 +399,8 @@ def history_parts(pid: str, tier: str):
 
         parts.append(Part("cache-restarts-N2", P(run_c18, HCfg(N=2, length=3, flavours="s")), {"N": 2, "what": "executions restarted from a cache (also one written by another instance) do not replace the value a setup node produced the first time"}, 900, 8, ["w_foreign_cache"], HIST_FUNCS))
         if not q:
-            parts.append(Part("histories-len3", P(run_c11, HCfg(N=3, length=3, flavours="sa")), dict(b, length=3), 2400, 9, ["w_reuse", "w_deepcopy"], HIST_FUNCS))
-            parts.append(Part("histories-len4-N2", P(run_c11, HCfg(N=2, length=4, flavours="s")), dict(b, N=2, length=4), 2400, 9, ["w_reuse"], HIST_FUNCS))
+            parts.append(Part("histories-len3", P(run_c11, HCfg(N=3, length=3, flavours="s")), dict(b, length=3), 3600, 9, ["w_reuse", "w_deepcopy"], HIST_FUNCS))
+            parts.append(Part("histories-len4-N2", P(run_c11, HCfg(N=2, length=4, flavours="s", deepcopy=False)), dict(b, N=2, length=4, operations="as above without deepcopy"), 3600, 9, ["w_reuse"], HIST_FUNCS))
     elif pid == "C15":
         b = {"programs": 3, "operations": "call (default omitted / supplied), failing call, executor create (whole / target), run, failing run, compose + call of the composed DAG, config_from_dict",
              "final operation": "a call with fresh symbolic arguments"}
@@ -418,7 +418,7 @@ def history_parts(pid: str, tier: str):
         parts.append(Part("arguments-cannot-reach-setup-nodes", P(run_c15_setup_inputs, HCfg(flavours="sa")), {"routes": "positional, keyword, flag, indexed flag, defaulted-argument flag, flag computed by a node from the argument",
                           "what": "refused at build time, or two calls with different arguments behave like fresh DAGs"}, 300, 3, ["w_refused"], HIST_FUNCS))
         if not q:
-            parts.append(Part("histories-len4", P(run_c15, HCfg(length=4, flavours="s")), dict(b, length="4+1"), 2400, 9, ["w_final_call"], HIST_FUNCS))
+            parts.append(Part("histories-len4", P(run_c15, HCfg(length=4, flavours="s")), dict(b, length="4+1"), 3600, 9, ["w_final_call"], HIST_FUNCS))
     elif pid == "C18":
         b = {"N": 3, "caching selection": "whole, target=[i], cache_deps_of=[i]", "restart": "same selection or whole DAG; on the same instance or on a pristine deep copy", "setup": "first node optionally a setup node"}
         parts.append(Part("cache-restart", P(run_c18, HCfg(N=3, length=3, flavours="sa")), dict(b, flavours="sync and async", extra="restart from a cache written by another instance"), 900, 8, ["w_deps_of_restart", "w_deps_of_two", "w_foreign_cache", "w_chained_caches"], HIST_FUNCS))
